@@ -27,7 +27,7 @@ ASSUMPTIONS = [
 
 @st.composite
 def raw_case(draw):
-    cfg = draw(gens.config())
+    cfg = draw(gens.config(flip=True))
     o = gens.opts(max_fields=4, max_depth=1, align_hint=cfg["align"])
     d = draw(gens.definition(o))
     data = draw(st.binary(min_size=0, max_size=48))
@@ -43,6 +43,8 @@ def run_case(case, ctx):
         return
     sem, data, mask, end = ref["sem"], ref["data"], ref["mask"], ref["end"]
     cs = common.load(case)
+    if case["cfg"].get("load_endian"):
+        ctx.count("endian-switched-after-load")
     T = cs.Root
     s = io.BytesIO(data)
     obj = lib(T, s)
